@@ -6,7 +6,7 @@ Each entry binds to one literal table of the library by its origin
 (``module:Class.attr`` or ``module:NAME``) and gives, per field name (the key the
 library returns to / accepts from callers):
 
-    (byte, msb, lsb) | (first_byte, msb, last_byte, lsb) | ("blob", first_byte, last_byte)
+    (byte, msb, lsb) | (first_byte, msb, last_byte, lsb) | ("blob", first_byte, last_byte) | ("bits", ((byte, bit) MSB first))
 
 in coordinates of the *structure* the standard draws (response, descriptor, mode
 page ...).  ``anchor`` is the structure byte at which the library applies the
@@ -23,6 +23,11 @@ def W(first, last):
 
 def BLOB(first, last):
     return ("blob", first, last)
+
+
+def LE16(first):
+    """a little-endian 16-bit word (ATA IDENTIFY data): value bits 15..8 in byte first+1, 7..0 in byte first"""
+    return ("bits", tuple([(first + 1, b) for b in range(7, -1, -1)] + [(first, b) for b in range(7, -1, -1)]))
 
 
 TABLES = {}
@@ -73,11 +78,20 @@ T(INQ + "_relative_port_bits", {"relative_port": W(2, 3)}, use="both")
 T(INQ + "_target_portal_group_bits", {"target_portal_group": W(2, 3)}, use="both")
 T(INQ + "_logical_unit_group_bits", {"logical_unit_group": W(2, 3)}, use="both")
 T(INQ + "_pci_express_routing_id_bits", {"pci_express_routing_id": W(0, 1)}, use="both")
-# ATA Information VPD (SAT): not reviewed to witness level -> unconstrained
-T(INQ + "_ata_information_bits", {"sat_vendor_identification": BLOB(8, 15), "sat_product_identification": None, "sat_product_rev_lvl": BLOB(32, 35)})
-T(INQ + "_ata_signature_bits", {k: None for k in ("sector_count", "lba_low", "lba_mid", "lba_high", "device")})
-T(INQ + "_ata_identify_bits", {k: None for k in ("general_config", "specific_config", "serial_number", "firmware_rev", "model_number")})
-T(INQ + "_ata_identify_gen_conf_bits", {"ata_device": None, "respose_incomplete": None})
+# ATA Information VPD page (SAT-3 12.4.2): SAT VENDOR IDENTIFICATION 8..15, SAT PRODUCT IDENTIFICATION 16..31, SAT PRODUCT
+# REVISION LEVEL 32..35, DEVICE SIGNATURE 36..55 (a Register Device-to-Host FIS: 36 FIS type, 37 PM port / I, 38 STATUS,
+# 39 ERROR, 40 LBA(7:0), 41 LBA(15:8), 42 LBA(23:16), 43 DEVICE, 44..46 LBA(47:24), 48 COUNT(7:0), 49 COUNT(15:8)),
+# COMMAND CODE 56, IDENTIFY (PACKET) DEVICE data 60..571 (256 little-endian words: word 0 general configuration with
+# bit 15 "not an ATA device" and bit 2 "response incomplete", word 2 specific configuration, words 10..19 serial number,
+# 23..26 firmware revision, 27..46 model number)
+T(INQ + "_ata_information_bits", {"sat_vendor_identification": BLOB(8, 15), "sat_product_identification": BLOB(16, 31),
+                                  "sat_product_rev_lvl": BLOB(32, 35)})
+T(INQ + "_ata_signature_bits", {"sector_count": (48, 7, 0), "lba_low": (40, 7, 0), "lba_mid": (41, 7, 0), "lba_high": (42, 7, 0),
+                                "device": (43, 7, 0)}, anchor=36)
+T(INQ + "_ata_identify_bits", {"general_config": None,      # replaced by the decoded flags below before it is returned
+                               "specific_config": LE16(64), "serial_number": BLOB(80, 99), "firmware_rev": BLOB(106, 113),
+                               "model_number": BLOB(114, 153)}, anchor=60)
+T(INQ + "_ata_identify_gen_conf_bits", {"ata_device": (61, 7, 7), "respose_incomplete": (60, 2, 2)}, anchor=60)
 
 PRI = M + "scsi_cdb_persistentreservein:"
 T(PRI + "PersistentReserveInReadKeys._header_bits", {"pr_generation": W(0, 3), "additional_length": W(4, 7)})
